@@ -71,6 +71,11 @@ theorem handoff_shape :
     Skel.sends "p.requestIDs" skel_server_waitForRequestIDs = false ∧
     Skel.recvs "p.requestIDs" skel_server_waitForRequestIDs = true := by decide
 
+/-- size cap on a pending-list reply (regenerated from parseRequestIDs): a reply that lists a whole dedup
+    window of the stand-alone proxy's IDs (64 hex digits each; JSON adds two quotes and a comma per ID and the two
+    brackets) fits under the cap, so such a reply is parsed rather than truncated and every listed ID is dispatched -/
+theorem full_window_reply_fits : agent_requestCacheLimit * (64 + 3) + 2 ≤ utils_pendingListByteCap := by decide
+
 -- non-vacuity
 example : spawns 3 [1, 2, 1, 3, 2, 1] = [1, 2, 3] := by decide
 example : WindowOK 3 [1, 2, 1] := window_of_few_distinct 3 _ (by decide)
